@@ -107,6 +107,41 @@ func samePtrs(a, b []*diam.AVP) bool {
 
 type C20Case struct {
 	Tree []T
+	Priv bool // the message carries a private dictionary that names the codes differently
+}
+
+// c20PrivXML: the four codes of the alphabet under other names, and the names the default
+// dictionary uses for them attached to other codes (absent from every tree) - so a query by
+// name resolved through any dictionary but the message's own finds nothing or something else.
+const c20PrivXML = `<?xml version="1.0" encoding="UTF-8"?>
+<diameter><application id="0" name="Priv">
+<avp name="Priv-Host" code="264" must="M" may="P" must-not="V" may-encrypt="-"><data type="DiameterIdentity"/></avp>
+<avp name="Priv-Result" code="268" must="M" may="P" must-not="V" may-encrypt="-"><data type="Unsigned32"/></avp>
+<avp name="Priv-Failed" code="279" must="M" may="P" must-not="V" may-encrypt="-"><data type="Grouped"/></avp>
+<avp name="Priv-Proxy" code="284" must="M" may="P" must-not="V" may-encrypt="-"><data type="Grouped"/></avp>
+<avp name="Priv-Session" code="263" must="M" may="P" must-not="V" may-encrypt="-"><data type="UTF8String"/></avp>
+<avp name="Origin-Host" code="9264" must="M" may="P" must-not="V" may-encrypt="-"><data type="DiameterIdentity"/></avp>
+<avp name="Result-Code" code="9268" must="M" may="P" must-not="V" may-encrypt="-"><data type="Unsigned32"/></avp>
+<avp name="Failed-AVP" code="9279" must="M" may="P" must-not="V" may-encrypt="-"><data type="Grouped"/></avp>
+<avp name="Proxy-Info" code="9284" must="M" may="P" must-not="V" may-encrypt="-"><data type="Grouped"/></avp>
+<avp name="Only-Private" code="9300" must="M" may="P" must-not="V" may-encrypt="-"><data type="Unsigned32"/></avp>
+</application></diameter>`
+
+var c20PrivNames = []string{"Priv-Host", "Priv-Result", "Priv-Failed", "Priv-Proxy"}
+var c20Priv *dict.Parser
+
+func c20PrivDict() *dict.Parser {
+	if c20Priv == nil {
+		p, err := dict.NewParser()
+		if err == nil {
+			err = p.Load(strings.NewReader(c20PrivXML))
+		}
+		if err != nil {
+			ev.Infra("C20 private dictionary: %v", err)
+		}
+		c20Priv = p
+	}
+	return c20Priv
 }
 
 // c20Eval runs every query against one tree; returns the first disagreement.
@@ -117,6 +152,11 @@ func c20Eval(cs C20Case) (res string, queries int) {
 		}
 	}()
 	m := diam.NewMessage(257, 0x80, 0, 1, 1, dict.Default)
+	c20Names, c20AbsentName := c20Names, c20AbsentName
+	if cs.Priv {
+		m = diam.NewMessage(257, 0x80, 0, 1, 1, c20PrivDict())
+		c20Names, c20AbsentName = c20PrivNames, "Priv-Session"
+	}
 	for _, t := range cs.Tree {
 		m.AddAVP(c20Build(t))
 	}
@@ -128,6 +168,12 @@ func c20Eval(cs C20Case) (res string, queries int) {
 	var qs []q
 	for i, c := range c20Codes {
 		qs = append(qs, q{c, c, fmt.Sprint(c)}, q{int(c), c, fmt.Sprintf("int(%d)", c)}, q{c20Names[i], c, c20Names[i]})
+	}
+	if cs.Priv {
+		// the default dictionary's names denote other codes here, none of them in the tree
+		for _, n := range []string{"Origin-Host", "Result-Code", "Failed-AVP", "Proxy-Info", "Only-Private"} {
+			qs = append(qs, q{n, 9999, "name of an absent code in the private dictionary: " + n})
+		}
 	}
 	qs = append(qs, q{uint32(c20AbsentCode), c20AbsentCode, "absent 263"}, q{c20AbsentName, c20AbsentCode, "absent Session-Id"}, q{uint32(c20UndefCode), c20UndefCode, "undefined 60001"}, q{"No-Such-AVP", 0, "undefined name"})
 	for _, x := range qs {
@@ -226,6 +272,7 @@ func c20Enum(ctx *ev.Ctx, fn func(C20Case)) string {
 	emit := func(t []T) {
 		if ctx.Mine() {
 			fn(C20Case{Tree: t})
+			fn(C20Case{Tree: t, Priv: true})
 		}
 	}
 	// top level: every single depth-2 node; every pair and triple of depth-1 nodes; pairs of
@@ -248,7 +295,7 @@ func c20Enum(ctx *ev.Ctx, fn func(C20Case)) string {
 			}
 		}
 	}
-	return "all AVP trees over two leaf codes and two grouped codes: every single node of nesting depth <=3 with inner width <=3 (outermost group: <=2 children quick, <=3 thorough), alone and next to a leaf in both orders; every ordered pair (and a family of triples) of depth-<=2 nodes; empty groups, repeated codes at several depths, groups in groups. Per tree: FindAVP and FindAVPs by uint32, int and name for every code of the alphabet, a defined but absent code, an undefined code and an undefined name; FindAVPsWithPath for every path of length <=3 over the alphabet plus the absent code, alternating number and name per step. Results are compared by pointer identity with a pre-order reference walk / strict per-level match."
+	return "all AVP trees over two leaf codes and two grouped codes: every single node of nesting depth <=3 with inner width <=3 (outermost group: <=2 children quick, <=3 thorough), alone and next to a leaf in both orders; every ordered pair (and a family of triples) of depth-<=2 nodes; empty groups, repeated codes at several depths, groups in groups. Per tree: FindAVP and FindAVPs by uint32, int and name for every code of the alphabet, a defined but absent code, an undefined code and an undefined name; FindAVPsWithPath for every path of length <=3 over the alphabet plus the absent code, alternating number and name per step. Every tree is searched twice: in a message carrying dict.Default and in one carrying a private dictionary that names the four codes differently and attaches the default names to codes absent from the tree (a name must resolve through the message's own dictionary). Results are compared by pointer identity with a pre-order reference walk / strict per-level match."
 }
 
 func runC20(ctx *ev.Ctx) {
@@ -259,6 +306,9 @@ func runC20(ctx *ev.Ctx) {
 			return
 		}
 		s := treeString(cs.Tree)
+		if cs.Priv {
+			s += " [private dictionary]"
+		}
 		ctx.Eval(ev.HS(s))
 		if n%20000 == 0 {
 			ctx.Sample("tree: " + s)
